@@ -24,6 +24,7 @@
 #ifndef __GIVARO_GMP_NO_CXX
 #include <sstream>
 #endif
+#include "givaro/giverror.h"
 
 namespace Givaro {
     //-------------------------------------------fact (uint64_t l)
@@ -104,6 +105,8 @@ namespace Givaro {
     // base p logarithm of a
     int64_t logp(const Integer& a, const Integer& p)
     {
+        // the squarings below never exceed a for p in {-1, 0, 1}, and no logarithm is defined for a base < 2
+        if (p < 2) throw GivMathError("*** Error: logp, the base must be at least 2") ;
         if (a < p) return 0;
         std::list< Integer > pows;
         Integer puiss = p, sq;
